@@ -364,10 +364,21 @@ def write_ndjson(path, events):
 
 
 def read_ndjson(path):
+    """Reads an ndjson trace. A truncated last line (the executor died mid-write) is dropped
+    and the file rewritten without it, so that TLC reads exactly the events returned here."""
     out = []
+    lines = []
     with open(path) as f:
-        for line in f:
-            line = line.strip()
-            if line:
-                out.append(json.loads(line))
+        raw = [l.strip() for l in f if l.strip()]
+    for i, line in enumerate(raw):
+        try:
+            out.append(json.loads(line))
+            lines.append(line)
+        except json.JSONDecodeError:
+            if i == len(raw) - 1:
+                break
+            raise Broken("malformed trace line %d in %s" % (i + 1, path))
+    if len(lines) != len(raw):
+        with open(path, "w") as f:
+            f.write("\n".join(lines) + "\n")
     return out
